@@ -640,19 +640,21 @@ def run_mixed_files(shard):
                         acc.fail('indexed access raised %s in a mixed file :: %s' % (type(e).__name__, fmt), case=tag)
                 acc.outcomes[fmt] += 1
             # two writer sessions on one path, the second one appending: the file reads as the concatenation of both sessions
-            for i, j in itertools.product(range(len(pool)), repeat=2):
+            import pathlib
+            for (i, j), target in itertools.product(itertools.product(range(len(pool)), repeat=2), ('str path', 'pathlib.Path')):
                 acc.states += 1
                 acc.transitions += 1
-                tag = '%s | %s then append %s' % (fmt, pool[i].name, pool[j].name)
+                tag = '%s | %s then append %s | %s' % (fmt, pool[i].name, pool[j].name, target)
                 p = os.path.join(d, 'a.%s' % ext)
                 if os.path.exists(p):
                     os.remove(p)
+                pp = p if target == 'str path' else pathlib.Path(p)
                 try:
-                    with wcls(p) as w:
+                    with wcls(pp) as w:
                         w.write(pool[i])
-                    with wcls(p, append=True) as w:
+                    with wcls(pp, append=True) as w:
                         w.write(pool[j])
-                    got = list(rcls(p))
+                    got = list(rcls(pp))
                 except Exception as e:
                     acc.fail('appending to a file raised %s :: %s' % (type(e).__name__, fmt), case=tag)
                     continue
